@@ -158,6 +158,8 @@ class A(Adapter):
         walls, targets, boxes, agent = self._parts(ps)
         res = self._move(walls, boxes, agent, a)
         nagent, nboxes = (agent, boxes) if res is None else res
+        if not (0 <= nagent[0] < walls.shape[0] and 0 <= nagent[1] < walls.shape[1]):
+            return ("agent_outside_grid", f"predecessor agent_location {agent} is outside the grid")
         vg = np.zeros_like(np.asarray(ps.variable_grid))
         for b in nboxes:
             vg[b] = BOX
